@@ -123,7 +123,7 @@ def run(tier, rep):
         pairs = candidate_relation(ref, hint)
         rep.coverage['relation_pairs'] = len(pairs)
         rep.coverage['reference_states'] = ref.n
-        params = dict(scanN=4 if thorough else 3, scanMinN=0, scanLexN=8 if thorough else 6, scanAccN=3 if thorough else 2)
+        params = dict(scanN=4 if thorough else 3, scanMinN=0, scanLexN=8 if thorough else 6, scanAccN=2)
         files = scan_files(sc, ref, pairs, **params)
         # S1: transition function and labels, all states x all int32 runes
         res = run_gosym(base_cfg(files, 'harnessC05Bisim', tier), sc, 's1')
